@@ -180,7 +180,16 @@ def run(facts, rep, events, model):
                 wrappers[body.id] = calls[0]
                 changed = True
     n += 1
-    rep.check(CREATE in wrappers, "D1", "store::create", "lock-call", "store::create must take the directory lock exactly once, with its result checked, on every path to its Ok return", site=cr.span, detail="Flock::lock(..)? in create")
+    if CREATE in wrappers:
+        rep.ok("D1", "store::create", "lock-call", detail="Flock::lock(..)? in create")
+    else:
+        # the creation of the files was separated from the locking (`lock_db_dir(..)?; init_db_files(..)?`): then every call
+        # of it must come after a checked lock site of the opener
+        callers = facts.callers().get(CREATE, [])
+        lock_sites = [b for b, t in op.calls() if t.get("callee") == LOCK or t.get("callee") in wrappers]
+        free = op.reachable([0], set(op.ok_removed()) | set(lock_sites))
+        ok_c = bool(callers) and bool(lock_sites) and all(cid == OPEN and cb not in free for (cid, cb, _k) in callers)
+        rep.check(ok_c, "D1", "store::create", "lock-call", "store::create must take the directory lock (exactly once, result checked, on every path to its Ok return), or be called only after a checked lock site of Store::open", site=cr.span, detail="create is called only behind the lock site(s) of Store::open")
     for wid, lb in sorted(wrappers.items()):
         w = facts.bodies[wid]
         ws = wid.split("::", 1)[1]
@@ -229,7 +238,7 @@ def run(facts, rep, events, model):
     for b, t in op.calls():
         c = t.get("callee") or ""
         if b in reach and (c.startswith("std::fs::") or c.startswith("nomt::")) and not is_probe(facts, events, c) and b not in sites:
-            if c in ("std::fs::OpenOptions::new", "std::fs::OpenOptions::read", "std::fs::OpenOptions::open"):
+            if c in ("std::fs::OpenOptions::new", "std::fs::OpenOptions::read", "std::fs::OpenOptions::open", "std::fs::File::open"):
                 # only the directory handle itself
                 cls = {e.cls for e in events if e.body.id == op.id and e.bb == b}
                 if cls <= {"dir"}:
